@@ -462,10 +462,22 @@ class SymReal:
             return SymReal(r)
         if isinstance(k, (float, np.floating)) and float(k) == 0.5:
             return self.sqrt()
+        if isinstance(k, (float, np.floating)) and float(k) == int(k) and k >= 0:
+            return self.__pow__(int(k))
         return NotImplemented
 
-    def __eq__(self, o): return SymBool(self.e == _lift(o))
-    def __ne__(self, o): return SymBool(self.e != _lift(o))
+    def __eq__(self, o):
+        try:
+            return SymBool(self.e == _lift(o))
+        except TypeError:
+            return NotImplemented
+
+    def __ne__(self, o):
+        try:
+            return SymBool(self.e != _lift(o))
+        except TypeError:
+            return NotImplemented
+
     def __lt__(self, o): return SymBool(self.e < _lift(o))
     def __le__(self, o): return SymBool(self.e <= _lift(o))
     def __gt__(self, o): return SymBool(self.e > _lift(o))
@@ -525,6 +537,44 @@ class SymReal:
 
     def conjugate(self):
         return self
+
+    def hypot(self, other):
+        o = other if isinstance(other, SymReal) else SymReal(_lift(other))
+        return (self * self + o * o).sqrt()
+
+    def square(self):
+        return self * self
+
+    def __round__(self, ndigits=None):
+        # round(x, n): nearest multiple of 10**-n (ties: either neighbour, over-approximation as in rint)
+        if ndigits is None or int(ndigits) == 0:
+            return self.rint()
+        # round(x, n), n > 0: any real within half a unit of the n-th decimal (integrality of the scaled value is
+        # dropped: an over-approximation that keeps the query in pure real arithmetic; counterexamples are replayed)
+        c = Ctx.cur
+        q = c.freshvar('round')
+        half = realval(fractions.Fraction(1, 2 * 10 ** int(ndigits)))
+        c.side += [q - self.e <= half, self.e - q <= half]
+        return SymReal(q)
+
+    def _floorlike(self, up):
+        c = Ctx.cur
+        k = c.freshvar('floor', 'int')
+        kr = z3.ToReal(k)
+        c.side += ([kr >= self.e, kr < self.e + 1] if up else [kr <= self.e, self.e < kr + 1])
+        return SymReal(kr)
+
+    def __floor__(self):
+        return self._floorlike(False)
+
+    def __ceil__(self):
+        return self._floorlike(True)
+
+    def floor(self):
+        return self._floorlike(False)
+
+    def ceil(self):
+        return self._floorlike(True)
 
     def __repr__(self):
         return "SymReal(%s)" % z3.simplify(self.e)
@@ -625,7 +675,10 @@ class SymInt:
     def __ge__(self, o): return self._cmp(o, lambda a, b: a >= b)
     def __eq__(self, o): return self._cmp(o, lambda a, b: a == b)
     def __ne__(self, o): return self._cmp(o, lambda a, b: a != b)
-    __hash__ = None
+
+    def __hash__(self):
+        # used as a dict / set key by the code under analysis: bounded case split
+        return hash(self.concretize())
 
     def __bool__(self):
         return Ctx.cur.branch(self.e != 0)
